@@ -43,6 +43,8 @@ contract(MSM, "ShardsList.load_or_create", props=["C04", "C08", "C17", "C06", "C
                 " result.relative_path_self == relative_path_self and result.number_of_examples == 0"
                 " and len(result.shard_files) == 0 and len(result.children_shard_lists) == 0)"),
         ("C17", "implies(dstate(PJOIN(dataset_root_path, relative_path_self)) == 2, VALID_ShardsList(result))"),
+        # A-PYD: the loaded list's entries are objects of the parsed document, not live program objects
+        "forall(lambda i: implies(0 <= i and i < len(result.shard_files), isdisk(result.shard_files[i])))",
     ],
     raises={"ValueError": ["dstate(PJOIN(dataset_root_path, relative_path_self)) == 2"]})
 
@@ -117,15 +119,23 @@ contract(MF, CTX + ".close_shard", props=["C10", "C04", "C06", "C08", "C18", "C1
     modifies=["Shard._shard_writer@shard", "Writer.closed@shard._shard_writer",
               "FileInfo.hash_checksums@shard.shard_info.file_infos[0]",
               "_DatasetFillerContext._shards_lists@self",
-              "ShardsList.shard_files@self._shards_lists[split]", "ShardsList.number_of_examples@self._shards_lists[split]",
+              # only the list of this split (if it is already in use; otherwise a new object) changes
+              "ShardsList.shard_files@ite(split in self._shards_lists, self._shards_lists[split], nullref('ShardsList'))",
+              "ShardsList.number_of_examples@ite(split in self._shards_lists, self._shards_lists[split], nullref('ShardsList'))",
               "ghost:fs"],
+    # file-system effect: the shard file, then (if progress is saved) the list file of this directory
+    fs_effects=[("SHARD_PATH(shard)", None),
+                ("PJOIN(self._dataset_root_path, PJOIN(PJOIN(split, self._relative_path_from_split), 'shards_list.json'))", None, "self._write_updates")],
     ensures=[
         "shard._shard_writer is None",
         "split in self._shards_lists",
         "LIST_OK(self, split)",
         # a list used for the first time is a new object (loaded or created), an already used one stays the same object
         "implies(old(split in self._shards_lists), self._shards_lists[split] is old(self._shards_lists[split]))",
-        "implies(not old(split in self._shards_lists), fresh(self._shards_lists[split]))",
+        "implies(not old(split in self._shards_lists), fresh(self._shards_lists[split])"
+        "   and forall(lambda i: implies(0 <= i and i < len(self._shards_lists[split].shard_files) - 1, isdisk(self._shards_lists[split].shard_files[i]))))",
+        "implies(old(split in self._shards_lists), forall(lambda i: implies(0 <= i and i < len(self._shards_lists[split].shard_files) - 1,"
+        "   self._shards_lists[split].shard_files[i] is old(self._shards_lists[split].shard_files[i]))))",
         "forall(lambda t: implies(t != split and old(t in self._shards_lists), self._shards_lists[t] is old(self._shards_lists[t])), t='U')",
         # C04: the list of this split = what it was (loaded from disk if first use) ++ [this shard], total increased by its count
         ("C04", "implies(old(split in self._shards_lists),"
@@ -304,3 +314,80 @@ contract(MF, MFD + "._update_infos", props=["C04", "C06", "C09", "C16", "C05"], 
                 "  and self._updated_infos[j].shard_list_info_file.file_path == FCTX(self)._shards_lists[dictkey(FCTX(self)._shards_lists, j)].relative_path_self))"),
     ], frame={"DatasetFiller._updated_infos": ["self"], "DatasetFiller._dataset": [], "DatasetFiller._dataset_filler_context": [],
               "ShardsList.shard_files": [], "ShardsList.number_of_examples": []})})
+
+# ---- whole-tree well-formedness (the representation invariant of C04/C05/C06/C08) -----
+# WFT(d, info): info is exact for its list file and so is every child entry below it
+ufunc("WFT", ["int", "int"], "bool")
+assumption("A-LEMMA-TREE", "every list locally exact and every entry exact for the file it names (WFT) implies the global totals are exact (structural induction over the finite tree); stated, not machine-checked here")
+_WFT_DEF = ("forall(lambda info: WFT(self, info) == (INFO_EXACT(self.path, ALGS(self), sli_ref(info))"
+            " and forall(lambda i: implies(0 <= i and i < len(DOC_AT(self.path, sli_ref(info).shard_list_info_file.file_path).children_shard_lists),"
+            "      WFT(self, DOC_AT(self.path, sli_ref(info).shard_list_info_file.file_path).children_shard_lists[i])))))")
+macro("KNOWN_SPLIT", ["s"], "s == 'train' or s == 'test' or s == 'holdout'")
+macro("DS_WF", ["d"],
+      "forall(lambda s: implies(s in d._dataset_info.splits, KNOWN_SPLIT(s) and WFT(d, d._dataset_info.splits[s])"
+      "   and PART(d._dataset_info.splits[s].shard_list_info_file.file_path, 0) == s), s='U')")
+
+contract(MW, "DatasetWriting.write_config", props=["C04", "C05", "C06", "C08", "C09", "C20", "C16"],
+    params={"updated_infos": "list:ref:ShardListInfo"}, returns="ref:FileInfo",
+    defs=[_WFT_DEF],
+    requires=[
+        "DS_WF(self)",
+        # every update is exact for a completely written list file (C06: lists before the description)
+        "forall(lambda j: implies(0 <= j and j < len(updated_infos), INFO_EXACT(self.path, ALGS(self), updated_infos[j])))",
+    ],
+    modifies=["DatasetInfo.splits", "ghost:fs"],
+    ensures=[
+        "DS_WF(self)",
+        # C08: untouched splits keep their entry
+        ("C08", "forall(lambda s: implies(forall(lambda j: implies(0 <= j and j < len(updated_infos), PART(updated_infos[j].shard_list_info_file.file_path, 0) != s)),"
+                "   (s in self._dataset_info.splits) == old(s in self._dataset_info.splits)"
+                "   and implies(s in self._dataset_info.splits, self._dataset_info.splits[s] is old(self._dataset_info.splits[s]))), s='U')"),
+        # C20/C04: the description on disk is the one held in memory
+        (["C20", "C04"], "dstate(PJOIN(self.path, 'dataset_info.json')) == 2"),
+    ],
+    raises={"ValueError": ["exists(lambda j: 0 <= j and j < len(updated_infos) and not KNOWN_SPLIT(PART(updated_infos[j].shard_list_info_file.file_path, 0)))"]},
+    verify=False, assumed=True,
+    note="bounded stand-in for now: the grouping / recursive merge (merge_shard_infos) is checked by history sweeps in harness/c_metadata.py")
+
+# ---- DatasetFiller.__exit__ -----------------------------------------------------------
+macro("FINV_OPEN1", ["c", "s"], "FINV1(c, s)")
+contract(MF, MFD + ".__exit__", props=["C10", "C04", "C06", "C09", "C08"],
+    params={"exc_type": "optU", "exc_value": "optU", "exc_tb": "optU"},
+    defs=[_WFT_DEF.replace("self.path", "self._dataset.path").replace("WFT(self,", "WFT(self._dataset,").replace("ALGS(self)", "ALGS(self._dataset)")],
+    requires=["FINV(FCTX(self))", "FCTX(self)._dataset_root_path == self._dataset.path",
+              "len(self._updated_infos) == 0", "DS_WF(self._dataset)",
+              "forall(lambda s: implies(s in FCTX(self)._current_shards_progress, SAFE(s) and PART(s, 0) == s), s='U')",
+              "forall(lambda s: implies(s in FCTX(self)._shards_lists, SAFE(s) and PART(s, 0) == s), s='U')"],
+    modifies=["Shard._shard_writer", "Writer.closed", "FileInfo.hash_checksums",
+              "_DatasetFillerContext._shards_lists", "ShardsList.shard_files", "ShardsList.number_of_examples",
+              "DatasetFiller._updated_infos@self", "DatasetInfo.splits", "ghost:fs"],
+    at_call={
+        # C10: __exit__ closes exactly the open shards that hold at least one example
+        "close_shard": [("C10", "callee_shard.shard_info.number_of_examples >= 1")],
+        # C09: with auto_update_dataset=False the dataset description is not touched by the filler
+        "write_config": [("C09", "self._auto_update_dataset")],
+    },
+    ensures=[
+        # without auto update the caller gets exact infos to merge later (multi-writer call) ...
+        (["C04", "C09"], "implies(not self._auto_update_dataset, forall(lambda j: implies(0 <= j and j < len(self._updated_infos), INFO_EXACT(self._dataset.path, ALGS(self._dataset), self._updated_infos[j]))))"),
+        ("C09", "implies(not self._auto_update_dataset, frame_old('DatasetInfo.splits'))"),
+        # ... with it the dataset's tree is well formed again (induction step over sessions)
+        (["C04", "C08"], "implies(self._auto_update_dataset, DS_WF(self._dataset))"),
+    ],
+    raises={"ValueError": ["True"]},
+    loops={1: Loop(inv=[
+        "0 <= _k",
+        "FCTX(self)._dataset_root_path == self._dataset.path and len(self._updated_infos) == 0",
+        "FCTX(self)._examples_per_shard >= 1 and SAFE(FCTX(self)._relative_path_from_split) and CTX_LISTS_OK(FCTX(self))",
+        "forall(lambda s: implies(s in FCTX(self)._shards_lists, SAFE(s)), s='U')",
+        # splits not yet visited are still in the open state; visited ones with examples are closed
+        "forall(lambda s: implies(s in FCTX(self)._current_shards_progress and dictidx(FCTX(self)._current_shards_progress, s) >= _k, FINV1(FCTX(self), s)), s='U')",
+        "forall(lambda s, t: implies(s in FCTX(self)._current_shards_progress and t in FCTX(self)._current_shards_progress and s != t,"
+        "   fprog(FCTX(self), s) is not fprog(FCTX(self), t) and fprog(FCTX(self), s).shard is not fprog(FCTX(self), t).shard"
+        "   and fprog(FCTX(self), s).shard.shard_info is not fprog(FCTX(self), t).shard.shard_info"
+        "   and implies(dictidx(FCTX(self)._current_shards_progress, s) >= _k and dictidx(FCTX(self)._current_shards_progress, t) >= _k,"
+        "       fprog(FCTX(self), s).shard._shard_writer is not fprog(FCTX(self), t).shard._shard_writer)), s='U', t='U')",
+    ], frame={"DatasetFiller._updated_infos": [], "DatasetFiller._dataset": [], "DatasetFiller._dataset_filler_context": [],
+              "DatasetFiller._auto_update_dataset": [], "_DatasetFillerContext._current_shards_progress": [],
+              "_DatasetFillerContext._dataset_root_path": [], "_DatasetFillerContext._relative_path_from_split": [],
+              "_DatasetFillerContext._examples_per_shard": [], "DatasetInfo.splits": [], "DatasetBase.path": [], "DatasetBase._dataset_info": []})})
